@@ -244,7 +244,7 @@ InvC06 == Fresh => /\ C06perm(cy.pre, cy.qs)
                         /\ C06zeroLast(cy.pre, cy.qs[k]) /\ C06boost(cy.pre, cy.qs[k])
                         /\ C06cap(cy.pre, cy.qs[k], st)
 InvC07 == Fresh => C07justified(cy.pre, st, FlatQ)
-InvC08 == Fresh => /\ C08keep(cy.pre, st, FlatQ) /\ C08expire(cy.pre, st)
+InvC08 == Fresh => /\ C08keep(cy.pre, st, FlatQ, EmptyFn) /\ C08expire(cy.pre, st, EmptyFn)
                    /\ C08frozenKeep(cy.pre, st, FlatQ) /\ C08frozenNoNew(cy.pre, st)
                    /\ C08blacklist(st)
 (* structural sanity in EVERY state, also inside a cycle *)
